@@ -575,9 +575,10 @@ func c11Shapes(c *Ctx) {
 		for _, call := range calls(fn, named("desync.NewCache")) {
 			a := call.Common().Args
 			upOK := hasOrigin(a[0], func(o string) bool { return o == "call:cmd.multiStoreWithRouter#0" })
+			// (const:nil is what a new helper returns together with its error)
 			locOK := onlyOrigins(a[1], func(o string) bool {
-				return o == "call:cmd.WritableStore#0" || o == "call:desync.NewRepairableCache#0"
-			})
+				return o == "call:cmd.WritableStore#0" || o == "call:desync.NewRepairableCache#0" || o == "const:nil"
+			}) && hasOrigin(a[1], func(o string) bool { return o == "call:cmd.WritableStore#0" })
 			c.verdict(upOK && locOK, "cmd.MultiStoreWithCache:cache", call.Pos(), "NewCache(router of the stores, writable cache [RepairableCache])", fmt.Sprintf("the cache is not built as Cache(router, cache store): %v / %v", origins(a[0]), origins(a[1])))
 		}
 		for _, call := range calls(fn, named("desync.NewRepairableCache")) {
